@@ -196,6 +196,19 @@ func (w *world) abs(m *specqbft.SignedMessage, depth int) string {
 
 // ---- recording network / timer ----------------------------------------------------------------------
 
+// failSigner: the node's signer, failing on demand (key manager outage).
+type failSigner struct {
+	inner spectypes.SSVSigner
+	fail  bool
+}
+
+func (f *failSigner) SignRoot(data spectypes.Root, sigType spectypes.SignatureType, pk []byte) (spectypes.Signature, error) {
+	if f.fail {
+		return nil, fmt.Errorf("injected signing failure")
+	}
+	return f.inner.SignRoot(data, sigType, pk)
+}
+
 // forceNetFail (set by scripted attacks): the next timeout of the node finds the network down.
 type recNet struct {
 	msgs      []*specqbft.SignedMessage
@@ -254,29 +267,31 @@ func (nopStore) CleanAllInstances(*zap.Logger, []byte) error { return nil }
 // ---- one operator ------------------------------------------------------------------------------------
 
 type node struct {
-	forceNetFail bool // the next timeout finds the network down (scripted attacks)
-	w            *world
-	id           spectypes.OperatorID
-	share        *spectypes.Share
-	height       specqbft.Height
-	level        string
-	net          *recNet
-	timer        *recTimer
-	inst         *instance.Instance // level inst
-	ctrl         *controller.Controller
-	ref          *specqbft.Instance // reference, level inst only
-	refNet       *recNet
-	refTmr       *specTimer
-	diverge      bool     // node was compacted: state roots are no longer comparable
-	lines        []string // CASE body
-	viol         []string
-	decided      *specqbft.SignedMessage // first reported decision (controller level) / agg commit
-	decVal       []byte
-	hasDec       bool
-	started      bool
-	armed        uint64 // the round the real timer was last armed for (what a real timeout event would carry)
-	rewound      bool   // UponDecided moved the round of this (undecided) instance backwards (signature of F6)
-	nops         int
+	forceNetFail  bool // the next timeout finds the network down (scripted attacks)
+	forceSignFail bool // the next timeout finds the signer failing (scripted attacks)
+	signer        *failSigner
+	w             *world
+	id            spectypes.OperatorID
+	share         *spectypes.Share
+	height        specqbft.Height
+	level         string
+	net           *recNet
+	timer         *recTimer
+	inst          *instance.Instance // level inst
+	ctrl          *controller.Controller
+	ref           *specqbft.Instance // reference, level inst only
+	refNet        *recNet
+	refTmr        *specTimer
+	diverge       bool     // node was compacted: state roots are no longer comparable
+	lines         []string // CASE body
+	viol          []string
+	decided       *specqbft.SignedMessage // first reported decision (controller level) / agg commit
+	decVal        []byte
+	hasDec        bool
+	started       bool
+	armed         uint64 // the round the real timer was last armed for (what a real timeout event would carry)
+	rewound       bool   // UponDecided moved the round of this (undecided) instance backwards (signature of F6)
+	nops          int
 }
 
 func (w *world) newNode(id spectypes.OperatorID, height specqbft.Height, level string) *node {
@@ -284,9 +299,10 @@ func (w *world) newNode(id spectypes.OperatorID, height specqbft.Height, level s
 		OperatorID: id, ValidatorPubKey: w.ks.ValidatorPK.Serialize(), SharePubKey: w.ks.Shares[id].GetPublicKey().Serialize(),
 		DomainType: domain, Quorum: w.ks.Threshold, PartialQuorum: w.ks.PartialThreshold, Committee: w.committee,
 	}
-	nd := &node{w: w, id: id, share: share, height: height, level: level, net: &recNet{}, timer: &recTimer{}}
+	nd := &node{w: w, id: id, share: share, height: height, level: level, net: &recNet{}, timer: &recTimer{},
+		signer: &failSigner{inner: testingutils.NewTestingKeyManager()}}
 	cfg := &qbft.Config{
-		Signer: testingutils.NewTestingKeyManager(), SigningPK: share.SharePubKey, Domain: domain, ValueCheckF: valueCheck,
+		Signer: nd.signer, SigningPK: share.SharePubKey, Domain: domain, ValueCheckF: valueCheck,
 		ProposerF: func(state *specqbft.State, round specqbft.Round) spectypes.OperatorID {
 			return specqbft.RoundRobinProposer(state, round)
 		},
@@ -636,17 +652,19 @@ func (nd *node) timeout() []*specqbft.SignedMessage {
 		}
 		// -netfail: every third timeout of an operator finds the network down (the publish of the round change
 		// fails); the timeout must move the operator on and re-arm the timer all the same
-		down := (netFail && nd.nops%3 == 0) || nd.forceNetFail
-		nd.net.fail = down
+		down := (netFail && nd.nops%3 == 0) || nd.forceNetFail || nd.forceSignFail
+		nd.net.fail = down && !nd.forceSignFail
+		nd.signer.fail = nd.forceSignFail
 		err := nd.ctrl.OnTimeout(logger, *ev)
 		nd.net.fail = false
+		nd.signer.fail = false
 		nd.lines = append(nd.lines, fmt.Sprintf("OBS timeout %d", b2i(err == nil)))
 		out := nd.obsOuts(false)
 		nd.obsState()
 		if down {
 			if could {
 				if s2 := nd.state(); uint64(s2.Round) != r+1 || s2.ProposalAcceptedForCurrentRound != nil || nd.armed != r+1 {
-					nd.violf("c07", "the timeout of round %d found the network down (%v): the operator is in round %d with the timer armed for round %d, accepted proposal cleared: %v - it must be in round %d with the timer re-armed",
+					nd.violf("c07", "the timeout of round %d found the network down or the signer failing (%v): the operator is in round %d with the timer armed for round %d, accepted proposal cleared: %v - it must be in round %d with the timer re-armed",
 						r, err, uint64(s2.Round), nd.armed, s2.ProposalAcceptedForCurrentRound == nil, r+1)
 				}
 			}
